@@ -557,6 +557,7 @@ func (viso *VirtualISO) makeVolumeDescriptors(volumeName string) {
 		Header: volumeDescriptorHeader{
 			Type:       volumeTypeTerminator,
 			Identifier: standardIdentifierBytes,
+			Version:    1, // ECMA-119 8.3.3, some readers (libarchive) refuse the volume otherwise
 		},
 	}
 
